@@ -34,7 +34,7 @@ impl Monitor for C05 {
         "C05"
     }
     fn rule(&self) -> String {
-        "cases = seeded random universes weighted to families that backtrack (medium / constrains-heavy / layered) with and without hints and soft lists, run synchronously and under an async schedule with random activity parameters; for every Ok result the reference `support` set (reachability from root requirements and accepted soft solvables over requirement edges whose satisfying candidate is in the solution) must equal the solution. distinct = content hash; non-trivial = distinct Ok case with >= 1 conflict (backjump) or restart and |solution| >= 3".into()
+        "cases = seeded random universes weighted to families that backtrack (medium / constrains-heavy / layered) with and without hints and soft lists, run synchronously and under an async schedule with random activity parameters; for every Ok result the reference `support` set (reachability from root requirements and accepted soft solvables over requirement edges whose satisfying candidate is in the solution) must equal the solution; hook monitor: every implied assignment on the final trail has a reason clause that contains it and was unit. distinct = content hash; non-trivial = distinct Ok case with >= 1 conflict (backjump) or restart and |solution| >= 3".into()
     }
     fn cases(&self, tier: Tier) -> u64 {
         tier.pick(320_000, 6_400_000)
@@ -65,6 +65,14 @@ impl Monitor for C05 {
                 let extra: Vec<String> = set.difference(&reach).map(|&s| u.solv_label(s)).collect();
                 ctx.violation("extraneous-solvable", format!("run {k} ({:?}): {:?} not needed by anything in {:?}", opts.mode, extra, sol.iter().map(|&s| u.solv_label(s)).collect::<Vec<_>>()));
             }
+            // mechanism monitor (anchor: "positive literals are only ever implied through Requires
+            // and learnt clauses"): every implied assignment on the final trail must have a reason
+            // clause that contains it and was unit when it fired
+            let d = sess.solver.verif_dump();
+            for v in crate::hooks::trail_reasons(&d) {
+                ctx.violation("h1-assignment-implied-without-a-unit-reason", format!("run {k} ({:?}): {v}", opts.mode));
+            }
+            ctx.rep.add("h1:trail-entries-checked", d.trail.len() as u64);
             let hs = hook_stats(&sess);
             if (hs.conflicts >= 1 || hs.restarts >= 1) && sol.len() >= 3 {
                 ctx.rep.nontrivial.insert(h);
